@@ -619,8 +619,25 @@ async fn server_case(c: &Case, q: usize, b: usize) -> CaseOut {
         PathK::Inline | PathK::OffReader => {
             let s = text("j", b - 2);
             let body = format!("\"{s}\"").into_bytes();
-            let h = move |_v: Value| Ok(Value::String(s.clone()));
-            router = if c.path == PathK::Inline { router.with_json(&query, h) } else { router.with_json_blocking(&query, h) };
+            // oversized cases with the `split` placement: the handler's answer is small and a middleware swaps
+            // the big body in through the message's public fields WITHOUT touching the header lengths (what
+            // is measured against the limit is what would be sent, not what the header says)
+            let swapped = c.place == Place::Split && c.limit.is_some_and(|l| frames::HEADER + q + b > l);
+            if swapped {
+                let (target, big) = (query.clone().into_bytes(), body.clone());
+                router = router.with_middleware(move |req: &repe::Message, next: repe::server::Next<'_>| {
+                    let mut r = next.run(req)?;
+                    if req.query == target {
+                        r.body = big.clone();
+                    }
+                    Ok(r)
+                });
+                let h = move |_v: Value| Ok(Value::String("s".into()));
+                router = if c.path == PathK::Inline { router.with_json(&query, h) } else { router.with_json_blocking(&query, h) };
+            } else {
+                let h = move |_v: Value| Ok(Value::String(s.clone()));
+                router = if c.path == PathK::Inline { router.with_json(&query, h) } else { router.with_json_blocking(&query, h) };
+            }
             expected = Frame::new(Hdr { body_format: frames::FMT_JSON, ..resp_hdr }, query.as_bytes(), &body);
         }
         PathK::InlineError | PathK::OffReaderError => {
